@@ -145,6 +145,7 @@ fn case<S: GElem>(ctx: &Ctx, rep: &mut Report, case: u64, g: &mut Sm64) {
     };
     let sig = format!("GibbsMarkovChain::step S={}", S::NAME);
     rep.distinct(("gibbs", S::NAME, d, weird, n_steps));
+    rep.distinct_in("dimensions swept", d);
     if g.chance(0.5) {
         // direct stepping of one chain
         let mut chain = GibbsMarkovChain::new(rc, &init);
